@@ -43,6 +43,8 @@ CONDITIONS = {
     "nested_dict_of_tuple": "Dict[Tuple].eq_iff_same",
     "nested_tuple_of_tuple": "Tuple[Tuple].eq_iff_same",
     "nested_hash": "nested.hash_consistent",
+    "control_discrete_eq_ignores_size": "control.crosshair.Discrete_eq_ignores_size",
+    "control_tuple_hash_distinguishes_nothing": "control.crosshair.Tuple_hash_constant",
 }
 
 REPLAY = r'''
